@@ -800,15 +800,16 @@ inline void Table::ensure_loop() {
   if (loop_item)
     return;
   Item new_item(LoopArg{});
-  new_item.loop.tags.resize(positions.size());
-  new_item.loop.values.resize(positions.size());
   loop_item = &bloc.items.at(positions[0]);
-  for (size_t i = 0; i != positions.size(); ++i) {
-    Item& item = bloc.items[positions[i]];
-    new_item.loop.tags[i].swap(item.pair[0]);
-    new_item.loop.values[i].swap(item.pair[1]);
+  int n = 0;
+  for (int& pos : positions) {
+    if (pos < 0)  // absent optional column (?tag) stays absent
+      continue;
+    Item& item = bloc.items[pos];
+    new_item.loop.tags.push_back(std::move(item.pair[0]));
+    new_item.loop.values.push_back(std::move(item.pair[1]));
     item.erase();
-    positions[i] = i;
+    pos = n++;
   }
   loop_item->set_value(std::move(new_item));
 }
